@@ -28,6 +28,7 @@ struct JudgeOut {
 	bool discarded = false;   // baseline not usable (DESIGN appendix B)
 	std::vector<uint64_t> distinct; // fingerprints of distinct non-trivial cases explored
 	std::vector<uint64_t> states;   // fingerprints of the context states (canonical dumps) reached
+	std::vector<uint64_t> schedules; // fingerprints of the interleavings (client / op-kind sequences) of multi-client plans
 	Counters k;               // fault / reach / coverage counters
 };
 
